@@ -4,6 +4,7 @@ import (
 	"context"
 	"fmt"
 	"sync"
+	"sync/atomic"
 	"time"
 
 	"github.com/aptpod/iscp-go/errors"
@@ -53,14 +54,16 @@ type Downstream struct {
 	lastIssuedUpstreamInfoAlias uint32                           // 最後に払い出されたアップストリーム情報のエイリアス
 	lastIssuedAckSequenceNumber uint32                           // 最後に払い出されたAckのシーケンス番号
 
-	wireConn     *wire.ClientConn
-	idAlias      uint32
-	dpsCh        <-chan *message.DownstreamChunk
-	metaCh       <-chan *message.DownstreamMetadata
-	ackCompCh    <-chan *message.DownstreamChunkAckComplete
-	dataPointsCh chan *message.DownstreamChunk
-	metadataCh   chan *message.DownstreamMetadata
-	logger       log.Logger
+	wireConn *wire.ClientConn
+	// connGeneration is connStatus.Reconnects() at the time wireConn was obtained.
+	connGeneration uint64
+	idAlias        uint32
+	dpsCh          <-chan *message.DownstreamChunk
+	metaCh         <-chan *message.DownstreamMetadata
+	ackCompCh      <-chan *message.DownstreamChunkAckComplete
+	dataPointsCh   chan *message.DownstreamChunk
+	metadataCh     chan *message.DownstreamMetadata
+	logger         log.Logger
 
 	dataIDAliasGenerator *wire.AliasGenerator
 
@@ -241,7 +244,7 @@ func (d *Downstream) run() error {
 
 	eg.Go(func() error {
 		d.connStatus.cond.L.Lock()
-		for !d.connStatus.IsWithoutLock(connStatusReconnecting) {
+		for d.connStatus.ReconnectsWithoutLock() == atomic.LoadUint64(&d.connGeneration) {
 			select {
 			case <-ctx.Done():
 				d.connStatus.cond.L.Unlock()
@@ -533,7 +536,7 @@ func (d *Downstream) isClosed() bool {
 	}
 }
 
-func (d *Downstream) resume(parentConn *Conn) error {
+func (d *Downstream) resume(parentConn *Conn, generation uint64) error {
 	d.logger.Infof(d.ctx, "Downstream start resuming [%s]", d.ID)
 	if d.isClosed() {
 		return fmt.Errorf("already closed downstream")
@@ -595,6 +598,7 @@ func (d *Downstream) resume(parentConn *Conn) error {
 		d.closeWithError(d.ctx, resErr)
 		return resErr
 	}
+	atomic.StoreUint64(&d.connGeneration, generation)
 	d.eventDispatcher.addHandler(func() {
 		d.Config.ResumedEventHandler.OnDownstreamResumed(&DownstreamResumedEvent{
 			ID:     d.ID,
